@@ -31,3 +31,4 @@ def run(ctx, R):
 
 
 META['level'] += ' MAILBOX also requires a notification after every store into the slot and a slot that wraps the element (no element value can look like the empty marker).'
+META['level'] += ' MAILBOX also requires that every normal path of update() stores the arrival (stores-every-arrival) and that no method but the forwarding coroutine empties the slot (only-forwarder-empties); the forwarder delivers through an _emit that iterates a snapshot of its consumers (FANOUT).'
